@@ -462,6 +462,40 @@ pub fn run(a: &Args, rep: &mut Report) {
         let mb = if *kind == Kind::Mbuff { (mbuff.addr() as *mut u8, mbuff.len()) } else { (std::ptr::null_mut(), 0) };
         exec_history(kind, ops, &pool, pk, mb, out);
     });
+    // ---- the same histories on 8 threads at once, each on its own VM: identical observations ----
+    if !cfg!(miri) {
+        let sample: Vec<&(Kind, Vec<Op>)> = histories.iter().take(if q { 300 } else { 3000 }).collect();
+        let (pka, pkl, mba, mbl) = (pkt.addr() as usize, pkt.len(), mbuff.addr() as usize, mbuff.len());
+        let pool_ref = &pool;
+        let ends_par = sys::run_batch(1, 600, 600, |_i, out| {
+            let f = |h: &&(Kind, Vec<Op>)| -> Vec<u8> {
+                let (kind, ops) = &**h;
+                let mut o = Vec::new();
+                let mb = if *kind == Kind::Mbuff { (mba as *mut u8, mbl) } else { (std::ptr::null_mut(), 0) };
+                exec_history(kind, ops, pool_ref, (pka as *mut u8, pkl), mb, &mut o);
+                o
+            };
+            let (execs, bad) = crate::mon_par::par_same(&sample, f, 2);
+            out.extend_from_slice(&execs.to_le_bytes());
+            for (i, d) in bad.iter().take(5) {
+                out.extend_from_slice(format!("history #{i} {:?} {:?}: {}\n", sample[*i].0, sample[*i].1, d).as_bytes());
+            }
+        });
+        rep.set("concurrent_workloads", "api-histories");
+        match &ends_par[0] {
+            CaseEnd::Done(b) if b.len() >= 8 => {
+                rep.add("concurrent_evaluations", u64::from_le_bytes(b[0..8].try_into().unwrap()));
+                let msg = String::from_utf8_lossy(&b[8..]).to_string();
+                if let Some(first) = msg.lines().next() {
+                    rep.violation("C10:concurrent:history-differs-from-sequential", format!("8 threads, each running API histories on its own VM: {}", first.chars().take(700).collect::<String>()), json!({"kind": "concurrent-session", "what": "api-histories", "deviations": msg.lines().take(5).map(|l| l.chars().take(700).collect::<String>()).collect::<Vec<_>>()}));
+                }
+            }
+            CaseEnd::Died(sg, _) => rep.violation(&format!("C10:concurrent:signal-{}", sys::signame(*sg)), format!("8 threads running API histories: killed by {}", sys::signame(*sg)), json!({"kind": "concurrent-session", "what": "api-histories"})),
+            CaseEnd::Done(_) => rep.inconclusive("concurrent histories: short record".into()),
+            CaseEnd::CpuTimeout => rep.inconclusive("concurrent histories: cpu limit".into()),
+            CaseEnd::Inconclusive(x) => rep.inconclusive(format!("concurrent histories: {x}")),
+        }
+    }
     // ---- offline: compare each recorded history with the model ----
     for ((kind, ops), e) in histories.iter().zip(ends.iter()) {
         rep.case(Some(crate::util::fnv(format!("{kind:?}{ops:?}").as_bytes())));
